@@ -2,10 +2,10 @@
      <variant> <name> <validity> <value> [<context_flags>|- [<fill>]]
    context_flags: written into the model's context_flags field; fill: every 32-bit word of the base context
    (so every integer field holds the word repeated to its width); absent = the pattern base (sentinel)
-   name: `-` = empty string; validity: `A` or `S:n1,n2,...` (`S:` = empty set)
+   name: `-` = empty string, `~` = a space; validity: `A` or `S:n1,n2,...` (`S:` = empty set)
    output: the model's part of the harness answer (see harness/src/bin/c18.rs) *)
 let name_of_string (s : string) : z list =
-  if s = "-" then [] else List.init (String.length s) (fun i -> z_of_int (Char.code s.[i]))
+  if s = "-" then [] else List.init (String.length s) (fun i -> z_of_int (Char.code (if s.[i] = '~' then ' ' else s.[i])))
 let string_of_name (n : z list) : string =
   String.concat "" (List.map (fun b -> String.make 1 (Char.chr (int_of_z b))) n)
 let keys = ["mz"; "st"; "ga"; "gA"; "gr"; "iv"; "ch"; "sp"; "ip"; "spn"; "ipn"; "rn"; "vn"; "cr"; "cv"; "sz"; "fm"; "mg"; "mga"; "sa"; "ia"]
